@@ -22,6 +22,8 @@ type seed struct {
 }
 
 var seeds = []seed{
+	{"roaring64 ReadFrom decodes through a package-level scratch buffer", "G1", "roaring64/roaring64.go", "func (rb *Bitmap) ReadFrom(stream io.Reader) (p int64, err error) {\n\tsizeBuf := make([]byte, 8)", "var headerScratch [8]byte\n\nfunc (rb *Bitmap) ReadFrom(stream io.Reader) (p int64, err error) {\n\tsizeBuf := headerScratch[:]", "ReadFrom|global headerScratch"},
+	{"UnmarshalBinary decodes zero-copy", "A8", "roaring.go", "\tr := bytes.NewReader(data)\n\t_, err := rb.ReadFrom(r)\n\treturn err", "\t_, err := rb.FromBuffer(data)\n\treturn err", "UnmarshalBinary|param:data"},
 	{"64-bit size predictor counts 8 bytes per key", "L1", "roaring64/roaringarray64.go", "\t\tanswer += 4\n\t\tanswer += c.GetSerializedSizeInBytes()", "\t\tanswer += 8\n\t\tanswer += c.GetSerializedSizeInBytes()", "serializedSizeInBytes"},
 	{"SetBigMany stops sign extension below the new top plane", "PC2", "roaring64/bsi64.go", "\t\t\t// Sign-extend existing negative entries into the new bit slots.\n\t\t\tnewSignPos := len(b.bA) - 1\n\t\t\tfor i := oldSignPos + 1; i <= newSignPos; i++ {", "\t\t\t// Sign-extend existing negative entries into the new bit slots.\n\t\t\tnewSignPos := len(b.bA) - 1\n\t\t\tfor i := oldSignPos + 1; i < newSignPos; i++ {", "SetBigMany"},
 	{"32-bit SetMany leaves the top plane untouched", "PC1", "BitSliceIndexing/bsi.go", "\tfor i := 0; i < b.BitCount(); i++ {\n\t\tif uint64(value)&(1<<uint64(i)) > 0 {\n\t\t\tb.bA[i].Or(foundSet)", "\tfor i := 0; i < b.BitCount()-1; i++ {\n\t\tif uint64(value)&(1<<uint64(i)) > 0 {\n\t\t\tb.bA[i].Or(foundSet)", "SetMany"},
